@@ -785,7 +785,13 @@ func witnessCmd(wid string) int {
 
 func finish(b *builder, m *merged, pl *plan, id, tier string, sd int64, start time.Time) int {
 	// write replay files; de-duplicate violations by (kind, first 120 chars of detail)
-	replayDir := filepath.Join(verifDir, "evidence", "replay")
+	// evidence belongs to /repo itself: runs against a scratch copy (mutants, seeded changes) write
+	// theirs under .work so that they can never be committed by accident
+	evDir := filepath.Join(verifDir, "evidence")
+	if repoDir != "/repo" {
+		evDir = filepath.Join(verifDir, ".work", "scratch-evidence")
+	}
+	replayDir := filepath.Join(evDir, "replay")
 	seen := map[string]bool{}
 	var printed []string
 	nviol := 0
@@ -847,8 +853,8 @@ func finish(b *builder, m *merged, pl *plan, id, tier string, sd int64, start ti
 		"technique":   pl.Technique,
 	}
 	js, _ := json.MarshalIndent(ev, "", " ")
-	os.MkdirAll(filepath.Join(verifDir, "evidence"), 0o755)
-	os.WriteFile(filepath.Join(verifDir, "evidence", id+".json"), append(js, '\n'), 0o644)
+	os.MkdirAll(evDir, 0o755)
+	os.WriteFile(filepath.Join(evDir, id+".json"), append(js, '\n'), 0o644)
 
 	if nviol > 0 {
 		fmt.Printf("%s %s: %d violation(s) in %d evaluations (%.1fs)\n", id, tier, nviol, evals, time.Since(start).Seconds())
